@@ -48,6 +48,24 @@ class Recorder:
                 fk = None
         return self.case(clause, ok, inp, exp, obs, ntk, fk)
 
+    def state(self):
+        return dict(evaluations=self.evaluations, nontrivial=self.nontrivial, violations=self.violations, per_clause=self.per_clause,
+                    samples=self.samples)
+
+    def absorb(self, st):
+        """merge the state of a worker's Recorder (thorough tiers split their input space over processes)"""
+        self.evaluations += st['evaluations']
+        self.nontrivial |= st['nontrivial']
+        for k, v in st['per_clause'].items():
+            self.per_clause[k] = self.per_clause.get(k, 0) + v
+        for s_ in st['samples']:
+            if len(self.samples) < 6:
+                self.samples.append(s_)
+        for v in st['violations']:
+            same = [w for w in self.violations if w['clause'] == v['clause'] and w.get('finding_key') == v.get('finding_key')]
+            if len(same) < (1 if str(v.get('finding_key')).startswith('?') else 3) and len(self.violations) < self.max_viol:
+                self.violations.append(v)
+
     def dump(self, path, exhaustive=True):
         d = dict(evaluations=self.evaluations, distinct_nontrivial=len(self.nontrivial), rule=self.rule,
                  bound=self.bound, exhaustive=exhaustive, per_clause=self.per_clause, samples=self.samples,
@@ -90,3 +108,15 @@ def replay_main(a, replayers):
     print(json.dumps(dict(clause=clause, input=rec['input'], expected=_j(exp), observed=_j(obs), reproduces=not ok),
                      default=str))
     sys.exit(0 if ok else 1)
+
+
+def run_parallel(worker, jobs, procs=None):
+    """worker(job) -> Recorder.state(); jobs are split over forked processes (the input space is the union of the jobs, stated in
+    the bound); returns the states in job order.  Deterministic: the split does not depend on timing."""
+    import multiprocessing as mp
+    import os
+    procs = procs or max(1, min(14, (os.cpu_count() or 2) - 2))
+    if procs == 1 or len(jobs) <= 1:
+        return [worker(j) for j in jobs]
+    with mp.get_context('fork').Pool(procs) as pool:
+        return pool.map(worker, jobs, chunksize=1)
